@@ -296,6 +296,12 @@ def check_true_color(prog, rep):
             if v_[0] == 'call' and v_[1] in ('numpy.where', 'dask.array.where') and len(v_[2]) == 3:
                 oka = is_mask(v_[2][0]) and v_[2][1] == ('const', 0) and v_[2][2] == ('const', 255)
                 whya = 'where(%s, %s, %s)' % (tshow(v_[2][0], 80), v_[2][1], v_[2][2])
+            elif v_[0] == 'call' and v_[1] in ('numpy.full', 'numpy.full_like') and len(v_[2]) >= 2 and v_[2][1] == ('const', 255):
+                # a separate alpha array: filled with 255, then 0 under the mask, then stored
+                ms = [(t2[2], v2) for t2, v2, g2, n2 in w.stores if t2[0] == 'index' and tkey(t2[1]) == tkey(v_)]
+                if len(ms) == 1:
+                    oka = ms[0][1] == ('const', 0) and is_mask(ms[0][0])
+                    whya = 'full(.., 255), then 0 where %s' % tshow(ms[0][0], 80)
         elif len(a3) == 2 and a3[0][0] is None and a3[1][0] is not None:
             oka = a3[0][1] == ('const', 255) and a3[1][1] == ('const', 0) and is_mask(a3[1][0])
             whya = 'filled with %s, then %s where %s' % (a3[0][1], a3[1][1], tshow(a3[1][0], 80))
